@@ -1786,6 +1786,31 @@ class Exec:
                     x = z3.Const('lcx', S.PyObj())
                     seq = st.sel('list', S.addr(src.t))
                     st.assume(z3.ForAll([x], z3.Implies(S.member(out, x), S.member(seq, x)), patterns=[S.member(out, x)]))
+                    gen = e.generators[0]
+                    if len(gen.ifs) == 1 and not gen.is_async:
+                        # exact membership of a pure filter: x in out  <=>  x in xs and cond(x); cond is evaluated once for an arbitrary element v (a fresh constant that is
+                        # then universally quantified); facts the evaluation assumes about v (typing of call results, ...) are kept inside the quantifier
+                        v = S.fresh('lcv')
+                        saved_env, n_pc, n_vc = dict(st.env), len(st.pc), len(self.vcs)
+                        snap = self._heap_snapshot(st)
+                        try:
+                            st.pc.append(S.member(seq, v))
+                            st.pc.append(S.has_type(v, src.ty.t, st.next_ref))
+                            st.env[gen.target.id] = V(v, src.ty.t)
+                            c_ = self.truth(self.ev(gen.ifs[0], st), st)
+                            if self._heap_changed(st, snap):
+                                raise Unsupported('heap effect in a comprehension condition')
+                            facts = st.pc[n_pc + 2:]
+                            del st.pc[n_pc:]
+                            body = z3.And(z3.Implies(S.member(seq, v), z3.And(*facts)) if facts else z3.BoolVal(True), S.member(out, v) == z3.And(S.member(seq, v), c_))
+                            st.assume(S.forall([v], body, patterns=[S.member(out, v), S.member(seq, v)]))
+                            self.notes[-1] = f'list comprehension {ast.unparse(e)[:50]}: pure filter, membership modelled exactly (order and multiplicity are not)'
+                        except Unsupported:
+                            del st.pc[n_pc:]
+                            del self.vcs[n_vc:]
+                        finally:
+                            st.env.clear()
+                            st.env.update(saved_env)
                     return V(r, src.ty)
             except Unsupported:
                 pass
